@@ -69,8 +69,11 @@ func (s *Suite) ValidatePairing(p1, p2, p3, p4 kyber.Point) bool {
 
 func (s *Suite) Pair(p1, p2 kyber.Point) kyber.Point {
 	e := bls12381.NewEngine()
-	g1point := p1.(*G1Elt).p
-	g2point := p2.(*G2Elt).p
+	// AddPair converts its arguments to affine coordinates in place
+	// (https://github.com/kilic/bls12-381/issues/37): work on copies, as ValidatePairing does,
+	// so that operands shared between goroutines are only read.
+	g1point := new(bls12381.PointG1).Set(p1.(*G1Elt).p)
+	g2point := new(bls12381.PointG2).Set(p2.(*G2Elt).p)
 	return newGT(e.AddPair(g1point, g2point).Result())
 }
 
